@@ -352,6 +352,9 @@ def initKeyState : KeyVariant → KeyState
 /-- the three recorded wire messages of the session the configuration belongs to -/
 inductive Wire
   | checkin | task | callback
+  /-- a request the configuration's routing does not accept (the check-in's path under the submit verb, the submit path under the
+  get verb): `get_transform_for_http` raises ValueError before anything of the decoder is read or written -/
+  | unrelated
   deriving DecidableEq, Repr
 
 /-- effect of `iter_recover_http(msg)` on the decoder's own state (c2.py 494-535): a check-in is RSA-decrypted when
@@ -365,12 +368,14 @@ def wireStep (ks : KeyState) : Wire → KeyState
     else ks
   | .task => ks
   | .callback => ks
+  | .unrelated => ks
 
 /-- what `list(iter_recover_http(msg))` gives, as a function of the decoder's own state -/
 def wireRes (ks : KeyState) : Wire → List Nat ⊕ PyExc
   | .checkin => .inl (if ks.hasPriv then [1] else [])
   | .task => if ks.keys = .session then .inl [2] else .inr .valueError
   | .callback => if ks.keys = .session then .inl [3] else .inr .valueError
+  | .unrelated => .inr .valueError
 
 def setKs : List Decoder → Nat → (KeyState → KeyState) → List Decoder
   | [], _, _ => []
